@@ -15,11 +15,15 @@ def arbitrary_order(rnd, label):
     return "\n".join(L) + "\n"
 
 
+# the recorded input of the known finding (child promoted before its step-parent / ancestor across a gap): always replayed
+KNOWN_INPUT = "SCEN kf0\nmake localp 2 3 3 3 semi-localp 0\nbegin\ncandl -1 -1 classic 0\nloadpool 1 0 369473 1\nfinish\n"
+
+
 def run(ctx):
     rnd = random.Random(ctx.seed + 101)
     n = 240 if ctx.quick else 5000
     scens = [gl.history(rnd, "n%d" % i, steps=rnd.randint(3, 9), with_construct=True, with_transform=True) for i in range(n)]
-    scens += [arbitrary_order(rnd, "a%d" % i) for i in range(n // 3)]
+    scens += [arbitrary_order(rnd, "a%d" % i) for i in range(n // 3)] + [KNOWN_INPUT]
     gen = gl.mc_and_scripts(ctx, ['localp2', 'globalcc', 'seq'], rnd, 80 if ctx.quick else 1500, maxlen=None if ctx.quick else 5, genlen=3 if ctx.quick else 4, mc=False)
     gl.run_grid(ctx, gen + [("nodal", scens)], gl.OBS_NODAL, "C01")
     ctx.assume("reproduction is judged by an observer at 1e-9 relative tolerance on integer token values; the spec decides when the property applies (local polynomial grids: all parents loaded)")
